@@ -8,8 +8,8 @@ import sys
 
 import torch
 
-from ..extract import c19_guards
-from . import c19_pairs
+from ..extract import c19_guards, c19_ext as c19_ext_extract
+from . import c19_pairs, c19_ext
 
 F64 = torch.float64
 
@@ -387,6 +387,13 @@ def index_cases(shape):
             idx = [":"] * nd
             idx[pos] = v
             res.append((f"int/{pname}/{vname}", idx))
+        for vname, v in [("ok-negsize", -size), ("ok-neg1", -1)]:
+            idx = [":"] * nd
+            idx[pos] = {"t": [v, 0], "dt": "int64"}
+            res.append((f"tensor1/{pname}/{vname}", idx))
+            idx = [":"] * nd
+            idx[pos] = {"t": v, "dt": "int64"}
+            res.append((f"tensor0d/{pname}/{vname}", idx))
         for dt in ("int64", "int32", "int16", "int8"):
             for vname, v in [("eq-size", size), ("lt-neg", -size - 1), ("ok-last", size - 1)]:
                 if dt in ("int16", "int8") and vname.startswith("ok"):
@@ -398,6 +405,10 @@ def index_cases(shape):
                 idx = [{"t": [0, 0], "dt": dt} for _ in range(nd)]
                 idx[pos] = {"t": [0, v], "dt": dt}
                 res.append((f"tensorall{tag}/{pname}/{vname}", idx))
+                # a 0-d integer tensor in one position (torch: behaves like the int)
+                idx = [":"] * nd
+                idx[pos] = {"t": v, "dt": dt}
+                res.append((f"tensor0d{tag}/{pname}/{vname}", idx))
                 if nd > 2 and pos >= nd - 2:
                     # row and column tensors only (batch sliced): the plain `_get_indices` path
                     idx = [":"] * (nd - 2) + [{"t": [0, 0], "dt": dt}, {"t": [0, 0], "dt": dt}]
@@ -573,6 +584,11 @@ def model_line(cls_name, definers, opname, shape, T_shape, mro_def):
         return f"addT {a} {shp(T_shape)}", "full"
     if opname == "add_diagonal" and mro_def(cls_name, "add_diagonal") == "LinearOperator":
         return f"adddiag {a} {shp(T_shape)}", "full"
+    if opname == "add_diagonal":
+        # per-class overrides (LinOp/C19/ExtModel.lean); the result SHAPE is compared too (classify)
+        return f"adddiagdef {mro_def(cls_name, 'add_diagonal')} {a} {shp(T_shape)}", "full"
+    if opname == "rmatmul" and mro_def(cls_name, "rmatmul") == "LinearOperator":
+        return f"rmm {a} {shp(T_shape)}", "full"
     if opname == "expand":
         if cls_name == "DenseLinearOperator":
             return f"denseexpand {a} {shp(T_shape)}", "full"
@@ -662,6 +678,21 @@ def gen_cases(chk, tier, collect=None):
         for m in c19_guards.METHODS:
             if m in cls.__dict__ and not any(c == cname and mm == m for c, mm, _ in overrides):
                 chk.proof_break("translator(C19Guards)", f"{cname}.{m} defined at run time but missing from the table")
+    add_diag, rmm_t, cat_t, ad_definers = c19_ext_extract.generate()
+    for cname, d in ad_definers:
+        cls = getattr(O, cname, None)
+        if cls is None:
+            continue
+        rt = next((k.__name__ for k in cls.__mro__ if "add_diagonal" in k.__dict__), "?")
+        if rt != d:
+            chk.proof_break("translator(C19Ext)", f"add_diagonal definer of {cname}: table {d}, run time {rt}")
+    for cname in ops_t:
+        cls = getattr(O, cname, None)
+        if cls is None:
+            continue
+        for m, tab in (("add_diagonal", add_diag), ("rmatmul", rmm_t)):
+            if (m in cls.__dict__) != any(c == cname for c, _ in tab):
+                chk.proof_break("translator(C19Ext)", f"{cname}.{m}: run-time definition and generated table disagree")
     runner = Runner(definers, mro_def)
     recs = []
     batches = [(), (2,)] if tier == "quick" else [(), (2,), (3,), (2, 1)]
@@ -755,17 +786,21 @@ def gen_cases(chk, tier, collect=None):
                         pname = kind.split("/")[1]
                         pos = len(shape) - 2 + ["row", "col"].index(pname) if pname in ("row", "col") else int(pname[5:])
                         if "@int16" not in kind and "@int8" not in kind:
-                            ml, mode = f"rangelist {shape[pos]} " + ",".join(str(x) for x in idx[pos]["t"]), "okerr"
+                            tl = idx[pos]["t"] if isinstance(idx[pos]["t"], list) else [idx[pos]["t"]]
+                            ml, mode = f"rangelist {shape[pos]} " + ",".join(str(x) for x in tl), "okerr"
                     elif opname == "cat":
                         dim, osh = others
                         pd = dim + len(shape)
                         sl = f"cat spec {pd} {shp(shape)} " + " ".join(shp(x) for x in osh)
                         if dbg and cname != "DenseLinearOperator":
-                            ml, mode = f"cat impl {pd} {shp(shape)} " + " ".join(shp(x) for x in osh), "guard"
+                            ml, mode = f"catctor 1 {pd} {shp(shape)} " + " ".join(shp(x) for x in osh), "full"
                     recs.append({"cell": cell, "key": key, "cls": cname, "b": list(b), "n": n, "op": opname, "kind": kind, "shape": list(shape),
                                  "operand": list(ts) if ts is not None else None, "idx": idx, "others": others, "debug": dbg,
                                  "impl": iv, "torch": tv, "model_line": ml, "mode": mode, "spec_line": sl})
     recs += gen_square_cases(chk, tier, todo)
+    # extension cells: cat_rows / add_low_rank on FRESH instances (no cached decompositions)
+    ext_spec = [((), 3), ((2,), 3)] if tier == "quick" else [((), 3), ((2,), 3), ((3,), 3), ((2, 1), 3), ((), 4), ((2,), 4)]
+    recs += c19_ext.gen_ext_cases(chk, tier, ext_spec, instances, mro_def)
     recs += gen_pair_cases(chk, tier)
     return recs
 
@@ -941,7 +976,7 @@ def classify(chk, recs, outs, baseline, collect=None):
         if mo is not None:
             m_ok = mo.startswith("ok")
             if r["mode"] == "full":
-                if m_ok != (iv[0] == "ok") or (m_ok and iv[0] == "ok" and r["op"] not in ("add_diagonal",) and mo != fmt_verdict(iv)):
+                if m_ok != (iv[0] == "ok") or (m_ok and iv[0] == "ok" and (r["op"] not in ("add_diagonal",) or r["model_line"].startswith("adddiagdef")) and mo != fmt_verdict(iv)):
                     agree = False
             elif r["mode"] == "okerr":
                 if m_ok != (iv[0] == "ok"):
@@ -983,7 +1018,7 @@ def run(chk, collect=None):
                         "an operator result that raises when first evaluated (lazy shape / to_dense) counts as a raise",
                         "solve-type operations on non-PSD catalogue instances may raise for numerical reasons (NotPSDError); such raises are accepted"]
     recs = gen_cases(chk, chk.tier, collect)
-    chk.prove("LinOp.Properties.C19", ["LinOp/C19", "LinOp/Generated/C19Guards.lean", "LinOp/Core/Parse.lean"])
+    chk.prove("LinOp.Properties.C19", ["LinOp/C19", "LinOp/Generated/C19Guards.lean", "LinOp/Generated/C19Ext.lean", "LinOp/Core/Parse.lean"])
     lines = []
     for r in recs:
         if r["model_line"]:
@@ -1014,6 +1049,23 @@ def replay(chk, payload):
         base = pl["cell"][:-len("/value")] if pl["cell"].endswith("/value") else pl["cell"]
         recs = gen_pair_cases(chk, "thorough", only=base)
         for r in recs:
+            iv, tv = r["impl"], r["torch"]
+            chk.case(json.dumps(pl))
+            print(f"replay {r['cell']}: impl {iv}  torch {tv}  values-equal {r['valeq']}")
+            if (tv[0] == "raise" and iv[0] == "ok") or (tv[0] == "ok" and iv[0] == "ok" and tuple(iv[1]) != tuple(tv[1])):
+                chk.violation(r["cell"], f"impl {iv} torch {tv}", pl)
+            elif r["valeq"] is False:
+                chk.violation(r["cell"] + "/value", f"impl {iv} torch {tv}: values differ", pl)
+        return
+    if str(pl.get("op", "")).startswith("ext-"):
+        chk.rng = rng
+        import linear_operator.operators as O
+
+        def mro_def(cls_name, meth):
+            cls = getattr(O, cls_name, None)
+            return next((k.__name__ for k in cls.__mro__ if meth in k.__dict__), "?") if cls else "?"
+        base = pl["cell"][:-len("/value")] if pl["cell"].endswith("/value") else pl["cell"]
+        for r in c19_ext.gen_ext_cases(chk, "thorough", [(tuple(pl["b"]), pl.get("n", 3))], instances, mro_def, only=base):
             iv, tv = r["impl"], r["torch"]
             chk.case(json.dumps(pl))
             print(f"replay {r['cell']}: impl {iv}  torch {tv}  values-equal {r['valeq']}")
